@@ -1302,6 +1302,10 @@ func (g *gen) blockOp() string {
 		}
 		al = append(al, fmt.Sprintf("%d:%s", ord, host))
 	}
+	if len(al) == 0 && aff != "-" && h.Chance(0.4) {
+		// a block with exactly one address handed to (usually) another node: a borrowed address
+		al = append(al, fmt.Sprintf("%d:%d", h.Intn(min(size, 5)), g.someNode()))
+	}
 	as := "-"
 	if len(al) > 0 {
 		as = strings.Join(al, ",")
